@@ -25,7 +25,7 @@ RULE = ('treebanks of 1..6 sentences (1..14 tokens; continuous / '
         'plain or gzip; reader options continuous, gf_split, gf_separator, '
         'replace_parens, brackets_emptypos, brackets_firstid, quiet; plus all '
         'bracket token-class sequences over {(, ), whitespace, token} up to '
-        'length 9 (quick) / 11 (thorough); non-trivial = treebank of >= 2 '
+        'length 9 (quick) / 12 (thorough); non-trivial = treebank of >= 2 '
         'sentences with some option or hostile layout / class sequence with '
         'at least one closed group; distinct = distinct (treebank, format, '
         'layout, options) / class sequence')
@@ -806,7 +806,7 @@ def shard(ctx):
     quick = ctx.quick()
     pr = AutomatonProbe(R, ctx)
     # ---- (A) treebanks -------------------------------------------------------------------
-    for i in ctx.indices(ctx.pick(3200, 120000)):
+    for i in ctx.indices(ctx.pick(3200, 400000)):
         rng = ctx.rng('bank', i)
         fmt = ['export', 'brackets', 'discobrackets', 'tigerxml'][i // ctx.nshards % 4]
         case = draw_case(rng, fmt, quick)
@@ -816,10 +816,10 @@ def shard(ctx):
                         'file options': case['enc_opts'],
                         'first tree': model.show(model.from_spec(
                             case['bank'][0]['root']), 'w')}, 4)
-    for i in ctx.indices(ctx.pick(300, 10000)):
+    for i in ctx.indices(ctx.pick(300, 30000)):
         cross_format(ctx, ctx.rng('cross', i))
     # ---- (B) token-class sweep ---------------------------------------------------------------
-    K = ctx.pick(9, 11)
+    K = ctx.pick(9, 12)
     fake = FakeIO(R.treeinput.io)
     R.treeinput.io = fake
     try:
